@@ -174,6 +174,189 @@ Definition fit (n : nat) (l : bytes) : bytes := firstn n (l ++ zeros n).
 Fixpoint iter {A} (n : nat) (f : A -> A) (x : A) : A :=
   match n with O => x | S k => iter k f (f x) end.
 
+(* ---------- words as lists of 4-bit digits, least significant first (used by SHA-2: every step is a
+   match on an enumeration, which the extracted runner executes without big-number arithmetic) ---------- *)
+Definition nib_and (x y : nib) : nib :=
+  match x with
+  | n0 => match y with | n0 => n0 | n1 => n0 | n2 => n0 | n3 => n0 | n4 => n0 | n5 => n0 | n6 => n0 | n7 => n0 | n8 => n0 | n9 => n0 | na => n0 | nb => n0 | nc => n0 | nd => n0 | ne => n0 | nf => n0 end
+  | n1 => match y with | n0 => n0 | n1 => n1 | n2 => n0 | n3 => n1 | n4 => n0 | n5 => n1 | n6 => n0 | n7 => n1 | n8 => n0 | n9 => n1 | na => n0 | nb => n1 | nc => n0 | nd => n1 | ne => n0 | nf => n1 end
+  | n2 => match y with | n0 => n0 | n1 => n0 | n2 => n2 | n3 => n2 | n4 => n0 | n5 => n0 | n6 => n2 | n7 => n2 | n8 => n0 | n9 => n0 | na => n2 | nb => n2 | nc => n0 | nd => n0 | ne => n2 | nf => n2 end
+  | n3 => match y with | n0 => n0 | n1 => n1 | n2 => n2 | n3 => n3 | n4 => n0 | n5 => n1 | n6 => n2 | n7 => n3 | n8 => n0 | n9 => n1 | na => n2 | nb => n3 | nc => n0 | nd => n1 | ne => n2 | nf => n3 end
+  | n4 => match y with | n0 => n0 | n1 => n0 | n2 => n0 | n3 => n0 | n4 => n4 | n5 => n4 | n6 => n4 | n7 => n4 | n8 => n0 | n9 => n0 | na => n0 | nb => n0 | nc => n4 | nd => n4 | ne => n4 | nf => n4 end
+  | n5 => match y with | n0 => n0 | n1 => n1 | n2 => n0 | n3 => n1 | n4 => n4 | n5 => n5 | n6 => n4 | n7 => n5 | n8 => n0 | n9 => n1 | na => n0 | nb => n1 | nc => n4 | nd => n5 | ne => n4 | nf => n5 end
+  | n6 => match y with | n0 => n0 | n1 => n0 | n2 => n2 | n3 => n2 | n4 => n4 | n5 => n4 | n6 => n6 | n7 => n6 | n8 => n0 | n9 => n0 | na => n2 | nb => n2 | nc => n4 | nd => n4 | ne => n6 | nf => n6 end
+  | n7 => match y with | n0 => n0 | n1 => n1 | n2 => n2 | n3 => n3 | n4 => n4 | n5 => n5 | n6 => n6 | n7 => n7 | n8 => n0 | n9 => n1 | na => n2 | nb => n3 | nc => n4 | nd => n5 | ne => n6 | nf => n7 end
+  | n8 => match y with | n0 => n0 | n1 => n0 | n2 => n0 | n3 => n0 | n4 => n0 | n5 => n0 | n6 => n0 | n7 => n0 | n8 => n8 | n9 => n8 | na => n8 | nb => n8 | nc => n8 | nd => n8 | ne => n8 | nf => n8 end
+  | n9 => match y with | n0 => n0 | n1 => n1 | n2 => n0 | n3 => n1 | n4 => n0 | n5 => n1 | n6 => n0 | n7 => n1 | n8 => n8 | n9 => n9 | na => n8 | nb => n9 | nc => n8 | nd => n9 | ne => n8 | nf => n9 end
+  | na => match y with | n0 => n0 | n1 => n0 | n2 => n2 | n3 => n2 | n4 => n0 | n5 => n0 | n6 => n2 | n7 => n2 | n8 => n8 | n9 => n8 | na => na | nb => na | nc => n8 | nd => n8 | ne => na | nf => na end
+  | nb => match y with | n0 => n0 | n1 => n1 | n2 => n2 | n3 => n3 | n4 => n0 | n5 => n1 | n6 => n2 | n7 => n3 | n8 => n8 | n9 => n9 | na => na | nb => nb | nc => n8 | nd => n9 | ne => na | nf => nb end
+  | nc => match y with | n0 => n0 | n1 => n0 | n2 => n0 | n3 => n0 | n4 => n4 | n5 => n4 | n6 => n4 | n7 => n4 | n8 => n8 | n9 => n8 | na => n8 | nb => n8 | nc => nc | nd => nc | ne => nc | nf => nc end
+  | nd => match y with | n0 => n0 | n1 => n1 | n2 => n0 | n3 => n1 | n4 => n4 | n5 => n5 | n6 => n4 | n7 => n5 | n8 => n8 | n9 => n9 | na => n8 | nb => n9 | nc => nc | nd => nd | ne => nc | nf => nd end
+  | ne => match y with | n0 => n0 | n1 => n0 | n2 => n2 | n3 => n2 | n4 => n4 | n5 => n4 | n6 => n6 | n7 => n6 | n8 => n8 | n9 => n8 | na => na | nb => na | nc => nc | nd => nc | ne => ne | nf => ne end
+  | nf => match y with | n0 => n0 | n1 => n1 | n2 => n2 | n3 => n3 | n4 => n4 | n5 => n5 | n6 => n6 | n7 => n7 | n8 => n8 | n9 => n9 | na => na | nb => nb | nc => nc | nd => nd | ne => ne | nf => nf end
+  end.
+
+Definition nib_or (x y : nib) : nib :=
+  match x with
+  | n0 => match y with | n0 => n0 | n1 => n1 | n2 => n2 | n3 => n3 | n4 => n4 | n5 => n5 | n6 => n6 | n7 => n7 | n8 => n8 | n9 => n9 | na => na | nb => nb | nc => nc | nd => nd | ne => ne | nf => nf end
+  | n1 => match y with | n0 => n1 | n1 => n1 | n2 => n3 | n3 => n3 | n4 => n5 | n5 => n5 | n6 => n7 | n7 => n7 | n8 => n9 | n9 => n9 | na => nb | nb => nb | nc => nd | nd => nd | ne => nf | nf => nf end
+  | n2 => match y with | n0 => n2 | n1 => n3 | n2 => n2 | n3 => n3 | n4 => n6 | n5 => n7 | n6 => n6 | n7 => n7 | n8 => na | n9 => nb | na => na | nb => nb | nc => ne | nd => nf | ne => ne | nf => nf end
+  | n3 => match y with | n0 => n3 | n1 => n3 | n2 => n3 | n3 => n3 | n4 => n7 | n5 => n7 | n6 => n7 | n7 => n7 | n8 => nb | n9 => nb | na => nb | nb => nb | nc => nf | nd => nf | ne => nf | nf => nf end
+  | n4 => match y with | n0 => n4 | n1 => n5 | n2 => n6 | n3 => n7 | n4 => n4 | n5 => n5 | n6 => n6 | n7 => n7 | n8 => nc | n9 => nd | na => ne | nb => nf | nc => nc | nd => nd | ne => ne | nf => nf end
+  | n5 => match y with | n0 => n5 | n1 => n5 | n2 => n7 | n3 => n7 | n4 => n5 | n5 => n5 | n6 => n7 | n7 => n7 | n8 => nd | n9 => nd | na => nf | nb => nf | nc => nd | nd => nd | ne => nf | nf => nf end
+  | n6 => match y with | n0 => n6 | n1 => n7 | n2 => n6 | n3 => n7 | n4 => n6 | n5 => n7 | n6 => n6 | n7 => n7 | n8 => ne | n9 => nf | na => ne | nb => nf | nc => ne | nd => nf | ne => ne | nf => nf end
+  | n7 => match y with | n0 => n7 | n1 => n7 | n2 => n7 | n3 => n7 | n4 => n7 | n5 => n7 | n6 => n7 | n7 => n7 | n8 => nf | n9 => nf | na => nf | nb => nf | nc => nf | nd => nf | ne => nf | nf => nf end
+  | n8 => match y with | n0 => n8 | n1 => n9 | n2 => na | n3 => nb | n4 => nc | n5 => nd | n6 => ne | n7 => nf | n8 => n8 | n9 => n9 | na => na | nb => nb | nc => nc | nd => nd | ne => ne | nf => nf end
+  | n9 => match y with | n0 => n9 | n1 => n9 | n2 => nb | n3 => nb | n4 => nd | n5 => nd | n6 => nf | n7 => nf | n8 => n9 | n9 => n9 | na => nb | nb => nb | nc => nd | nd => nd | ne => nf | nf => nf end
+  | na => match y with | n0 => na | n1 => nb | n2 => na | n3 => nb | n4 => ne | n5 => nf | n6 => ne | n7 => nf | n8 => na | n9 => nb | na => na | nb => nb | nc => ne | nd => nf | ne => ne | nf => nf end
+  | nb => match y with | n0 => nb | n1 => nb | n2 => nb | n3 => nb | n4 => nf | n5 => nf | n6 => nf | n7 => nf | n8 => nb | n9 => nb | na => nb | nb => nb | nc => nf | nd => nf | ne => nf | nf => nf end
+  | nc => match y with | n0 => nc | n1 => nd | n2 => ne | n3 => nf | n4 => nc | n5 => nd | n6 => ne | n7 => nf | n8 => nc | n9 => nd | na => ne | nb => nf | nc => nc | nd => nd | ne => ne | nf => nf end
+  | nd => match y with | n0 => nd | n1 => nd | n2 => nf | n3 => nf | n4 => nd | n5 => nd | n6 => nf | n7 => nf | n8 => nd | n9 => nd | na => nf | nb => nf | nc => nd | nd => nd | ne => nf | nf => nf end
+  | ne => match y with | n0 => ne | n1 => nf | n2 => ne | n3 => nf | n4 => ne | n5 => nf | n6 => ne | n7 => nf | n8 => ne | n9 => nf | na => ne | nb => nf | nc => ne | nd => nf | ne => ne | nf => nf end
+  | nf => match y with | n0 => nf | n1 => nf | n2 => nf | n3 => nf | n4 => nf | n5 => nf | n6 => nf | n7 => nf | n8 => nf | n9 => nf | na => nf | nb => nf | nc => nf | nd => nf | ne => nf | nf => nf end
+  end.
+
+Definition nib_add (x y : nib) (c : bool) : nib * bool :=
+  if c then
+    match x with
+    | n0 => match y with | n0 => (n1, false) | n1 => (n2, false) | n2 => (n3, false) | n3 => (n4, false) | n4 => (n5, false) | n5 => (n6, false) | n6 => (n7, false) | n7 => (n8, false) | n8 => (n9, false) | n9 => (na, false) | na => (nb, false) | nb => (nc, false) | nc => (nd, false) | nd => (ne, false) | ne => (nf, false) | nf => (n0, true) end
+    | n1 => match y with | n0 => (n2, false) | n1 => (n3, false) | n2 => (n4, false) | n3 => (n5, false) | n4 => (n6, false) | n5 => (n7, false) | n6 => (n8, false) | n7 => (n9, false) | n8 => (na, false) | n9 => (nb, false) | na => (nc, false) | nb => (nd, false) | nc => (ne, false) | nd => (nf, false) | ne => (n0, true) | nf => (n1, true) end
+    | n2 => match y with | n0 => (n3, false) | n1 => (n4, false) | n2 => (n5, false) | n3 => (n6, false) | n4 => (n7, false) | n5 => (n8, false) | n6 => (n9, false) | n7 => (na, false) | n8 => (nb, false) | n9 => (nc, false) | na => (nd, false) | nb => (ne, false) | nc => (nf, false) | nd => (n0, true) | ne => (n1, true) | nf => (n2, true) end
+    | n3 => match y with | n0 => (n4, false) | n1 => (n5, false) | n2 => (n6, false) | n3 => (n7, false) | n4 => (n8, false) | n5 => (n9, false) | n6 => (na, false) | n7 => (nb, false) | n8 => (nc, false) | n9 => (nd, false) | na => (ne, false) | nb => (nf, false) | nc => (n0, true) | nd => (n1, true) | ne => (n2, true) | nf => (n3, true) end
+    | n4 => match y with | n0 => (n5, false) | n1 => (n6, false) | n2 => (n7, false) | n3 => (n8, false) | n4 => (n9, false) | n5 => (na, false) | n6 => (nb, false) | n7 => (nc, false) | n8 => (nd, false) | n9 => (ne, false) | na => (nf, false) | nb => (n0, true) | nc => (n1, true) | nd => (n2, true) | ne => (n3, true) | nf => (n4, true) end
+    | n5 => match y with | n0 => (n6, false) | n1 => (n7, false) | n2 => (n8, false) | n3 => (n9, false) | n4 => (na, false) | n5 => (nb, false) | n6 => (nc, false) | n7 => (nd, false) | n8 => (ne, false) | n9 => (nf, false) | na => (n0, true) | nb => (n1, true) | nc => (n2, true) | nd => (n3, true) | ne => (n4, true) | nf => (n5, true) end
+    | n6 => match y with | n0 => (n7, false) | n1 => (n8, false) | n2 => (n9, false) | n3 => (na, false) | n4 => (nb, false) | n5 => (nc, false) | n6 => (nd, false) | n7 => (ne, false) | n8 => (nf, false) | n9 => (n0, true) | na => (n1, true) | nb => (n2, true) | nc => (n3, true) | nd => (n4, true) | ne => (n5, true) | nf => (n6, true) end
+    | n7 => match y with | n0 => (n8, false) | n1 => (n9, false) | n2 => (na, false) | n3 => (nb, false) | n4 => (nc, false) | n5 => (nd, false) | n6 => (ne, false) | n7 => (nf, false) | n8 => (n0, true) | n9 => (n1, true) | na => (n2, true) | nb => (n3, true) | nc => (n4, true) | nd => (n5, true) | ne => (n6, true) | nf => (n7, true) end
+    | n8 => match y with | n0 => (n9, false) | n1 => (na, false) | n2 => (nb, false) | n3 => (nc, false) | n4 => (nd, false) | n5 => (ne, false) | n6 => (nf, false) | n7 => (n0, true) | n8 => (n1, true) | n9 => (n2, true) | na => (n3, true) | nb => (n4, true) | nc => (n5, true) | nd => (n6, true) | ne => (n7, true) | nf => (n8, true) end
+    | n9 => match y with | n0 => (na, false) | n1 => (nb, false) | n2 => (nc, false) | n3 => (nd, false) | n4 => (ne, false) | n5 => (nf, false) | n6 => (n0, true) | n7 => (n1, true) | n8 => (n2, true) | n9 => (n3, true) | na => (n4, true) | nb => (n5, true) | nc => (n6, true) | nd => (n7, true) | ne => (n8, true) | nf => (n9, true) end
+    | na => match y with | n0 => (nb, false) | n1 => (nc, false) | n2 => (nd, false) | n3 => (ne, false) | n4 => (nf, false) | n5 => (n0, true) | n6 => (n1, true) | n7 => (n2, true) | n8 => (n3, true) | n9 => (n4, true) | na => (n5, true) | nb => (n6, true) | nc => (n7, true) | nd => (n8, true) | ne => (n9, true) | nf => (na, true) end
+    | nb => match y with | n0 => (nc, false) | n1 => (nd, false) | n2 => (ne, false) | n3 => (nf, false) | n4 => (n0, true) | n5 => (n1, true) | n6 => (n2, true) | n7 => (n3, true) | n8 => (n4, true) | n9 => (n5, true) | na => (n6, true) | nb => (n7, true) | nc => (n8, true) | nd => (n9, true) | ne => (na, true) | nf => (nb, true) end
+    | nc => match y with | n0 => (nd, false) | n1 => (ne, false) | n2 => (nf, false) | n3 => (n0, true) | n4 => (n1, true) | n5 => (n2, true) | n6 => (n3, true) | n7 => (n4, true) | n8 => (n5, true) | n9 => (n6, true) | na => (n7, true) | nb => (n8, true) | nc => (n9, true) | nd => (na, true) | ne => (nb, true) | nf => (nc, true) end
+    | nd => match y with | n0 => (ne, false) | n1 => (nf, false) | n2 => (n0, true) | n3 => (n1, true) | n4 => (n2, true) | n5 => (n3, true) | n6 => (n4, true) | n7 => (n5, true) | n8 => (n6, true) | n9 => (n7, true) | na => (n8, true) | nb => (n9, true) | nc => (na, true) | nd => (nb, true) | ne => (nc, true) | nf => (nd, true) end
+    | ne => match y with | n0 => (nf, false) | n1 => (n0, true) | n2 => (n1, true) | n3 => (n2, true) | n4 => (n3, true) | n5 => (n4, true) | n6 => (n5, true) | n7 => (n6, true) | n8 => (n7, true) | n9 => (n8, true) | na => (n9, true) | nb => (na, true) | nc => (nb, true) | nd => (nc, true) | ne => (nd, true) | nf => (ne, true) end
+    | nf => match y with | n0 => (n0, true) | n1 => (n1, true) | n2 => (n2, true) | n3 => (n3, true) | n4 => (n4, true) | n5 => (n5, true) | n6 => (n6, true) | n7 => (n7, true) | n8 => (n8, true) | n9 => (n9, true) | na => (na, true) | nb => (nb, true) | nc => (nc, true) | nd => (nd, true) | ne => (ne, true) | nf => (nf, true) end
+    end
+  else
+    match x with
+    | n0 => match y with | n0 => (n0, false) | n1 => (n1, false) | n2 => (n2, false) | n3 => (n3, false) | n4 => (n4, false) | n5 => (n5, false) | n6 => (n6, false) | n7 => (n7, false) | n8 => (n8, false) | n9 => (n9, false) | na => (na, false) | nb => (nb, false) | nc => (nc, false) | nd => (nd, false) | ne => (ne, false) | nf => (nf, false) end
+    | n1 => match y with | n0 => (n1, false) | n1 => (n2, false) | n2 => (n3, false) | n3 => (n4, false) | n4 => (n5, false) | n5 => (n6, false) | n6 => (n7, false) | n7 => (n8, false) | n8 => (n9, false) | n9 => (na, false) | na => (nb, false) | nb => (nc, false) | nc => (nd, false) | nd => (ne, false) | ne => (nf, false) | nf => (n0, true) end
+    | n2 => match y with | n0 => (n2, false) | n1 => (n3, false) | n2 => (n4, false) | n3 => (n5, false) | n4 => (n6, false) | n5 => (n7, false) | n6 => (n8, false) | n7 => (n9, false) | n8 => (na, false) | n9 => (nb, false) | na => (nc, false) | nb => (nd, false) | nc => (ne, false) | nd => (nf, false) | ne => (n0, true) | nf => (n1, true) end
+    | n3 => match y with | n0 => (n3, false) | n1 => (n4, false) | n2 => (n5, false) | n3 => (n6, false) | n4 => (n7, false) | n5 => (n8, false) | n6 => (n9, false) | n7 => (na, false) | n8 => (nb, false) | n9 => (nc, false) | na => (nd, false) | nb => (ne, false) | nc => (nf, false) | nd => (n0, true) | ne => (n1, true) | nf => (n2, true) end
+    | n4 => match y with | n0 => (n4, false) | n1 => (n5, false) | n2 => (n6, false) | n3 => (n7, false) | n4 => (n8, false) | n5 => (n9, false) | n6 => (na, false) | n7 => (nb, false) | n8 => (nc, false) | n9 => (nd, false) | na => (ne, false) | nb => (nf, false) | nc => (n0, true) | nd => (n1, true) | ne => (n2, true) | nf => (n3, true) end
+    | n5 => match y with | n0 => (n5, false) | n1 => (n6, false) | n2 => (n7, false) | n3 => (n8, false) | n4 => (n9, false) | n5 => (na, false) | n6 => (nb, false) | n7 => (nc, false) | n8 => (nd, false) | n9 => (ne, false) | na => (nf, false) | nb => (n0, true) | nc => (n1, true) | nd => (n2, true) | ne => (n3, true) | nf => (n4, true) end
+    | n6 => match y with | n0 => (n6, false) | n1 => (n7, false) | n2 => (n8, false) | n3 => (n9, false) | n4 => (na, false) | n5 => (nb, false) | n6 => (nc, false) | n7 => (nd, false) | n8 => (ne, false) | n9 => (nf, false) | na => (n0, true) | nb => (n1, true) | nc => (n2, true) | nd => (n3, true) | ne => (n4, true) | nf => (n5, true) end
+    | n7 => match y with | n0 => (n7, false) | n1 => (n8, false) | n2 => (n9, false) | n3 => (na, false) | n4 => (nb, false) | n5 => (nc, false) | n6 => (nd, false) | n7 => (ne, false) | n8 => (nf, false) | n9 => (n0, true) | na => (n1, true) | nb => (n2, true) | nc => (n3, true) | nd => (n4, true) | ne => (n5, true) | nf => (n6, true) end
+    | n8 => match y with | n0 => (n8, false) | n1 => (n9, false) | n2 => (na, false) | n3 => (nb, false) | n4 => (nc, false) | n5 => (nd, false) | n6 => (ne, false) | n7 => (nf, false) | n8 => (n0, true) | n9 => (n1, true) | na => (n2, true) | nb => (n3, true) | nc => (n4, true) | nd => (n5, true) | ne => (n6, true) | nf => (n7, true) end
+    | n9 => match y with | n0 => (n9, false) | n1 => (na, false) | n2 => (nb, false) | n3 => (nc, false) | n4 => (nd, false) | n5 => (ne, false) | n6 => (nf, false) | n7 => (n0, true) | n8 => (n1, true) | n9 => (n2, true) | na => (n3, true) | nb => (n4, true) | nc => (n5, true) | nd => (n6, true) | ne => (n7, true) | nf => (n8, true) end
+    | na => match y with | n0 => (na, false) | n1 => (nb, false) | n2 => (nc, false) | n3 => (nd, false) | n4 => (ne, false) | n5 => (nf, false) | n6 => (n0, true) | n7 => (n1, true) | n8 => (n2, true) | n9 => (n3, true) | na => (n4, true) | nb => (n5, true) | nc => (n6, true) | nd => (n7, true) | ne => (n8, true) | nf => (n9, true) end
+    | nb => match y with | n0 => (nb, false) | n1 => (nc, false) | n2 => (nd, false) | n3 => (ne, false) | n4 => (nf, false) | n5 => (n0, true) | n6 => (n1, true) | n7 => (n2, true) | n8 => (n3, true) | n9 => (n4, true) | na => (n5, true) | nb => (n6, true) | nc => (n7, true) | nd => (n8, true) | ne => (n9, true) | nf => (na, true) end
+    | nc => match y with | n0 => (nc, false) | n1 => (nd, false) | n2 => (ne, false) | n3 => (nf, false) | n4 => (n0, true) | n5 => (n1, true) | n6 => (n2, true) | n7 => (n3, true) | n8 => (n4, true) | n9 => (n5, true) | na => (n6, true) | nb => (n7, true) | nc => (n8, true) | nd => (n9, true) | ne => (na, true) | nf => (nb, true) end
+    | nd => match y with | n0 => (nd, false) | n1 => (ne, false) | n2 => (nf, false) | n3 => (n0, true) | n4 => (n1, true) | n5 => (n2, true) | n6 => (n3, true) | n7 => (n4, true) | n8 => (n5, true) | n9 => (n6, true) | na => (n7, true) | nb => (n8, true) | nc => (n9, true) | nd => (na, true) | ne => (nb, true) | nf => (nc, true) end
+    | ne => match y with | n0 => (ne, false) | n1 => (nf, false) | n2 => (n0, true) | n3 => (n1, true) | n4 => (n2, true) | n5 => (n3, true) | n6 => (n4, true) | n7 => (n5, true) | n8 => (n6, true) | n9 => (n7, true) | na => (n8, true) | nb => (n9, true) | nc => (na, true) | nd => (nb, true) | ne => (nc, true) | nf => (nd, true) end
+    | nf => match y with | n0 => (nf, false) | n1 => (n0, true) | n2 => (n1, true) | n3 => (n2, true) | n4 => (n3, true) | n5 => (n4, true) | n6 => (n5, true) | n7 => (n6, true) | n8 => (n7, true) | n9 => (n8, true) | na => (n9, true) | nb => (na, true) | nc => (nb, true) | nd => (nc, true) | ne => (nd, true) | nf => (ne, true) end
+    end.
+
+(* [nib_shN hi lo]: the low 4 bits of ((hi * 16 + lo) >> N) *)
+Definition nib_sh1 (x y : nib) : nib :=
+  match x with
+  | n0 => match y with | n0 => n0 | n1 => n0 | n2 => n1 | n3 => n1 | n4 => n2 | n5 => n2 | n6 => n3 | n7 => n3 | n8 => n4 | n9 => n4 | na => n5 | nb => n5 | nc => n6 | nd => n6 | ne => n7 | nf => n7 end
+  | n1 => match y with | n0 => n8 | n1 => n8 | n2 => n9 | n3 => n9 | n4 => na | n5 => na | n6 => nb | n7 => nb | n8 => nc | n9 => nc | na => nd | nb => nd | nc => ne | nd => ne | ne => nf | nf => nf end
+  | n2 => match y with | n0 => n0 | n1 => n0 | n2 => n1 | n3 => n1 | n4 => n2 | n5 => n2 | n6 => n3 | n7 => n3 | n8 => n4 | n9 => n4 | na => n5 | nb => n5 | nc => n6 | nd => n6 | ne => n7 | nf => n7 end
+  | n3 => match y with | n0 => n8 | n1 => n8 | n2 => n9 | n3 => n9 | n4 => na | n5 => na | n6 => nb | n7 => nb | n8 => nc | n9 => nc | na => nd | nb => nd | nc => ne | nd => ne | ne => nf | nf => nf end
+  | n4 => match y with | n0 => n0 | n1 => n0 | n2 => n1 | n3 => n1 | n4 => n2 | n5 => n2 | n6 => n3 | n7 => n3 | n8 => n4 | n9 => n4 | na => n5 | nb => n5 | nc => n6 | nd => n6 | ne => n7 | nf => n7 end
+  | n5 => match y with | n0 => n8 | n1 => n8 | n2 => n9 | n3 => n9 | n4 => na | n5 => na | n6 => nb | n7 => nb | n8 => nc | n9 => nc | na => nd | nb => nd | nc => ne | nd => ne | ne => nf | nf => nf end
+  | n6 => match y with | n0 => n0 | n1 => n0 | n2 => n1 | n3 => n1 | n4 => n2 | n5 => n2 | n6 => n3 | n7 => n3 | n8 => n4 | n9 => n4 | na => n5 | nb => n5 | nc => n6 | nd => n6 | ne => n7 | nf => n7 end
+  | n7 => match y with | n0 => n8 | n1 => n8 | n2 => n9 | n3 => n9 | n4 => na | n5 => na | n6 => nb | n7 => nb | n8 => nc | n9 => nc | na => nd | nb => nd | nc => ne | nd => ne | ne => nf | nf => nf end
+  | n8 => match y with | n0 => n0 | n1 => n0 | n2 => n1 | n3 => n1 | n4 => n2 | n5 => n2 | n6 => n3 | n7 => n3 | n8 => n4 | n9 => n4 | na => n5 | nb => n5 | nc => n6 | nd => n6 | ne => n7 | nf => n7 end
+  | n9 => match y with | n0 => n8 | n1 => n8 | n2 => n9 | n3 => n9 | n4 => na | n5 => na | n6 => nb | n7 => nb | n8 => nc | n9 => nc | na => nd | nb => nd | nc => ne | nd => ne | ne => nf | nf => nf end
+  | na => match y with | n0 => n0 | n1 => n0 | n2 => n1 | n3 => n1 | n4 => n2 | n5 => n2 | n6 => n3 | n7 => n3 | n8 => n4 | n9 => n4 | na => n5 | nb => n5 | nc => n6 | nd => n6 | ne => n7 | nf => n7 end
+  | nb => match y with | n0 => n8 | n1 => n8 | n2 => n9 | n3 => n9 | n4 => na | n5 => na | n6 => nb | n7 => nb | n8 => nc | n9 => nc | na => nd | nb => nd | nc => ne | nd => ne | ne => nf | nf => nf end
+  | nc => match y with | n0 => n0 | n1 => n0 | n2 => n1 | n3 => n1 | n4 => n2 | n5 => n2 | n6 => n3 | n7 => n3 | n8 => n4 | n9 => n4 | na => n5 | nb => n5 | nc => n6 | nd => n6 | ne => n7 | nf => n7 end
+  | nd => match y with | n0 => n8 | n1 => n8 | n2 => n9 | n3 => n9 | n4 => na | n5 => na | n6 => nb | n7 => nb | n8 => nc | n9 => nc | na => nd | nb => nd | nc => ne | nd => ne | ne => nf | nf => nf end
+  | ne => match y with | n0 => n0 | n1 => n0 | n2 => n1 | n3 => n1 | n4 => n2 | n5 => n2 | n6 => n3 | n7 => n3 | n8 => n4 | n9 => n4 | na => n5 | nb => n5 | nc => n6 | nd => n6 | ne => n7 | nf => n7 end
+  | nf => match y with | n0 => n8 | n1 => n8 | n2 => n9 | n3 => n9 | n4 => na | n5 => na | n6 => nb | n7 => nb | n8 => nc | n9 => nc | na => nd | nb => nd | nc => ne | nd => ne | ne => nf | nf => nf end
+  end.
+
+Definition nib_sh2 (x y : nib) : nib :=
+  match x with
+  | n0 => match y with | n0 => n0 | n1 => n0 | n2 => n0 | n3 => n0 | n4 => n1 | n5 => n1 | n6 => n1 | n7 => n1 | n8 => n2 | n9 => n2 | na => n2 | nb => n2 | nc => n3 | nd => n3 | ne => n3 | nf => n3 end
+  | n1 => match y with | n0 => n4 | n1 => n4 | n2 => n4 | n3 => n4 | n4 => n5 | n5 => n5 | n6 => n5 | n7 => n5 | n8 => n6 | n9 => n6 | na => n6 | nb => n6 | nc => n7 | nd => n7 | ne => n7 | nf => n7 end
+  | n2 => match y with | n0 => n8 | n1 => n8 | n2 => n8 | n3 => n8 | n4 => n9 | n5 => n9 | n6 => n9 | n7 => n9 | n8 => na | n9 => na | na => na | nb => na | nc => nb | nd => nb | ne => nb | nf => nb end
+  | n3 => match y with | n0 => nc | n1 => nc | n2 => nc | n3 => nc | n4 => nd | n5 => nd | n6 => nd | n7 => nd | n8 => ne | n9 => ne | na => ne | nb => ne | nc => nf | nd => nf | ne => nf | nf => nf end
+  | n4 => match y with | n0 => n0 | n1 => n0 | n2 => n0 | n3 => n0 | n4 => n1 | n5 => n1 | n6 => n1 | n7 => n1 | n8 => n2 | n9 => n2 | na => n2 | nb => n2 | nc => n3 | nd => n3 | ne => n3 | nf => n3 end
+  | n5 => match y with | n0 => n4 | n1 => n4 | n2 => n4 | n3 => n4 | n4 => n5 | n5 => n5 | n6 => n5 | n7 => n5 | n8 => n6 | n9 => n6 | na => n6 | nb => n6 | nc => n7 | nd => n7 | ne => n7 | nf => n7 end
+  | n6 => match y with | n0 => n8 | n1 => n8 | n2 => n8 | n3 => n8 | n4 => n9 | n5 => n9 | n6 => n9 | n7 => n9 | n8 => na | n9 => na | na => na | nb => na | nc => nb | nd => nb | ne => nb | nf => nb end
+  | n7 => match y with | n0 => nc | n1 => nc | n2 => nc | n3 => nc | n4 => nd | n5 => nd | n6 => nd | n7 => nd | n8 => ne | n9 => ne | na => ne | nb => ne | nc => nf | nd => nf | ne => nf | nf => nf end
+  | n8 => match y with | n0 => n0 | n1 => n0 | n2 => n0 | n3 => n0 | n4 => n1 | n5 => n1 | n6 => n1 | n7 => n1 | n8 => n2 | n9 => n2 | na => n2 | nb => n2 | nc => n3 | nd => n3 | ne => n3 | nf => n3 end
+  | n9 => match y with | n0 => n4 | n1 => n4 | n2 => n4 | n3 => n4 | n4 => n5 | n5 => n5 | n6 => n5 | n7 => n5 | n8 => n6 | n9 => n6 | na => n6 | nb => n6 | nc => n7 | nd => n7 | ne => n7 | nf => n7 end
+  | na => match y with | n0 => n8 | n1 => n8 | n2 => n8 | n3 => n8 | n4 => n9 | n5 => n9 | n6 => n9 | n7 => n9 | n8 => na | n9 => na | na => na | nb => na | nc => nb | nd => nb | ne => nb | nf => nb end
+  | nb => match y with | n0 => nc | n1 => nc | n2 => nc | n3 => nc | n4 => nd | n5 => nd | n6 => nd | n7 => nd | n8 => ne | n9 => ne | na => ne | nb => ne | nc => nf | nd => nf | ne => nf | nf => nf end
+  | nc => match y with | n0 => n0 | n1 => n0 | n2 => n0 | n3 => n0 | n4 => n1 | n5 => n1 | n6 => n1 | n7 => n1 | n8 => n2 | n9 => n2 | na => n2 | nb => n2 | nc => n3 | nd => n3 | ne => n3 | nf => n3 end
+  | nd => match y with | n0 => n4 | n1 => n4 | n2 => n4 | n3 => n4 | n4 => n5 | n5 => n5 | n6 => n5 | n7 => n5 | n8 => n6 | n9 => n6 | na => n6 | nb => n6 | nc => n7 | nd => n7 | ne => n7 | nf => n7 end
+  | ne => match y with | n0 => n8 | n1 => n8 | n2 => n8 | n3 => n8 | n4 => n9 | n5 => n9 | n6 => n9 | n7 => n9 | n8 => na | n9 => na | na => na | nb => na | nc => nb | nd => nb | ne => nb | nf => nb end
+  | nf => match y with | n0 => nc | n1 => nc | n2 => nc | n3 => nc | n4 => nd | n5 => nd | n6 => nd | n7 => nd | n8 => ne | n9 => ne | na => ne | nb => ne | nc => nf | nd => nf | ne => nf | nf => nf end
+  end.
+
+Definition nib_sh3 (x y : nib) : nib :=
+  match x with
+  | n0 => match y with | n0 => n0 | n1 => n0 | n2 => n0 | n3 => n0 | n4 => n0 | n5 => n0 | n6 => n0 | n7 => n0 | n8 => n1 | n9 => n1 | na => n1 | nb => n1 | nc => n1 | nd => n1 | ne => n1 | nf => n1 end
+  | n1 => match y with | n0 => n2 | n1 => n2 | n2 => n2 | n3 => n2 | n4 => n2 | n5 => n2 | n6 => n2 | n7 => n2 | n8 => n3 | n9 => n3 | na => n3 | nb => n3 | nc => n3 | nd => n3 | ne => n3 | nf => n3 end
+  | n2 => match y with | n0 => n4 | n1 => n4 | n2 => n4 | n3 => n4 | n4 => n4 | n5 => n4 | n6 => n4 | n7 => n4 | n8 => n5 | n9 => n5 | na => n5 | nb => n5 | nc => n5 | nd => n5 | ne => n5 | nf => n5 end
+  | n3 => match y with | n0 => n6 | n1 => n6 | n2 => n6 | n3 => n6 | n4 => n6 | n5 => n6 | n6 => n6 | n7 => n6 | n8 => n7 | n9 => n7 | na => n7 | nb => n7 | nc => n7 | nd => n7 | ne => n7 | nf => n7 end
+  | n4 => match y with | n0 => n8 | n1 => n8 | n2 => n8 | n3 => n8 | n4 => n8 | n5 => n8 | n6 => n8 | n7 => n8 | n8 => n9 | n9 => n9 | na => n9 | nb => n9 | nc => n9 | nd => n9 | ne => n9 | nf => n9 end
+  | n5 => match y with | n0 => na | n1 => na | n2 => na | n3 => na | n4 => na | n5 => na | n6 => na | n7 => na | n8 => nb | n9 => nb | na => nb | nb => nb | nc => nb | nd => nb | ne => nb | nf => nb end
+  | n6 => match y with | n0 => nc | n1 => nc | n2 => nc | n3 => nc | n4 => nc | n5 => nc | n6 => nc | n7 => nc | n8 => nd | n9 => nd | na => nd | nb => nd | nc => nd | nd => nd | ne => nd | nf => nd end
+  | n7 => match y with | n0 => ne | n1 => ne | n2 => ne | n3 => ne | n4 => ne | n5 => ne | n6 => ne | n7 => ne | n8 => nf | n9 => nf | na => nf | nb => nf | nc => nf | nd => nf | ne => nf | nf => nf end
+  | n8 => match y with | n0 => n0 | n1 => n0 | n2 => n0 | n3 => n0 | n4 => n0 | n5 => n0 | n6 => n0 | n7 => n0 | n8 => n1 | n9 => n1 | na => n1 | nb => n1 | nc => n1 | nd => n1 | ne => n1 | nf => n1 end
+  | n9 => match y with | n0 => n2 | n1 => n2 | n2 => n2 | n3 => n2 | n4 => n2 | n5 => n2 | n6 => n2 | n7 => n2 | n8 => n3 | n9 => n3 | na => n3 | nb => n3 | nc => n3 | nd => n3 | ne => n3 | nf => n3 end
+  | na => match y with | n0 => n4 | n1 => n4 | n2 => n4 | n3 => n4 | n4 => n4 | n5 => n4 | n6 => n4 | n7 => n4 | n8 => n5 | n9 => n5 | na => n5 | nb => n5 | nc => n5 | nd => n5 | ne => n5 | nf => n5 end
+  | nb => match y with | n0 => n6 | n1 => n6 | n2 => n6 | n3 => n6 | n4 => n6 | n5 => n6 | n6 => n6 | n7 => n6 | n8 => n7 | n9 => n7 | na => n7 | nb => n7 | nc => n7 | nd => n7 | ne => n7 | nf => n7 end
+  | nc => match y with | n0 => n8 | n1 => n8 | n2 => n8 | n3 => n8 | n4 => n8 | n5 => n8 | n6 => n8 | n7 => n8 | n8 => n9 | n9 => n9 | na => n9 | nb => n9 | nc => n9 | nd => n9 | ne => n9 | nf => n9 end
+  | nd => match y with | n0 => na | n1 => na | n2 => na | n3 => na | n4 => na | n5 => na | n6 => na | n7 => na | n8 => nb | n9 => nb | na => nb | nb => nb | nc => nb | nd => nb | ne => nb | nf => nb end
+  | ne => match y with | n0 => nc | n1 => nc | n2 => nc | n3 => nc | n4 => nc | n5 => nc | n6 => nc | n7 => nc | n8 => nd | n9 => nd | na => nd | nb => nd | nc => nd | nd => nd | ne => nd | nf => nd end
+  | nf => match y with | n0 => ne | n1 => ne | n2 => ne | n3 => ne | n4 => ne | n5 => ne | n6 => ne | n7 => ne | n8 => nf | n9 => nf | na => nf | nb => nf | nc => nf | nd => nf | ne => nf | nf => nf end
+  end.
+
+Definition word := list nib.
+Fixpoint wmap2 (f : nib -> nib -> nib) (a b : word) : word :=
+  match a, b with x :: a', y :: b' => f x y :: wmap2 f a' b' | _, _ => [] end.
+Definition wxor : word -> word -> word := wmap2 nib_xor.
+Definition wand : word -> word -> word := wmap2 nib_and.
+Definition wor : word -> word -> word := wmap2 nib_or.
+(* addition modulo 16^(length a): the final carry is dropped *)
+Fixpoint wadd_c (a b : word) (c : bool) : word :=
+  match a, b with
+  | x :: a', y :: b' => let r := nib_add x y c in fst r :: wadd_c a' b' (snd r)
+  | _, _ => []
+  end.
+Definition wadd (a b : word) : word := wadd_c a b false.
+(* shift every digit right by the table's bit count, taking the bits that enter each digit from its more
+   significant neighbour and, for the top digit, from [fill] *)
+Fixpoint wshr_bits (t : nib -> nib -> nib) (l : word) (fill : nib) : word :=
+  match l with
+  | [] => []
+  | x :: l' => match l' with
+               | [] => [t fill x]
+               | y :: _ => t y x :: wshr_bits t l' fill
+               end
+  end.
+Definition sh_tab (r : nat) : nib -> nib -> nib :=
+  match r with 1%nat => nib_sh1 | 2%nat => nib_sh2 | _ => nib_sh3 end.
+(* rotate / shift right by 4q + r bits (r < 4) *)
+Definition wrotr (l : word) (q r : nat) : word :=
+  let l' := skipn q l ++ firstn q l in
+  match r with O => l' | _ => wshr_bits (sh_tab r) l' (hd n0 l') end.
+Definition wshr (l : word) (q r : nat) : word :=
+  let l' := skipn q l ++ repeat n0 q in
+  match r with O => l' | _ => wshr_bits (sh_tab r) l' n0 end.
+(* conversions *)
+Definition word_of_be (l : bytes) : word := rev (flat_map (fun b => [nib_hi b; nib_lo b]) l).
+Fixpoint be_of_msb (l : list nib) : bytes :=
+  match l with h :: l0 :: r => nib_join h l0 :: be_of_msb r | _ => [] end.
+Definition be_of_word (w : word) : bytes := be_of_msb (rev w).
+Fixpoint word_of_N (digits : nat) (x : N) : word :=
+  match digits with O => [] | S k => nib_lo (byte_lo x) :: word_of_N k (N.shiftr x 4) end.
+
 (* hex literals for test vectors: [hex "00ff"] *)
 Definition hex (s : String.string) : bytes :=
   match bytes_of_hex (bs s) with Some b => b | None => [] end.
